@@ -243,3 +243,40 @@ Lemma w_noinc_invalid : validate (run_frames 7 0 w_noinc_run) = false /\ map seq
 Proof. split; vm_compute; reflexivity. Qed.
 Lemma w_noinc_fixed_valid : validate (run_frames 7 0 [(ESessionStarted, 1); (EProviderEvent, 1); (ESessionEnded, 1)]) = true.
 Proof. vm_compute. reflexivity. Qed.
+
+(* ---------- the actors of every mixed correspondence case meet the hypotheses of the theorem ---------- *)
+Lemma wf_prog_of_mop l o : mop_ok cop_ok o = true -> wf_prog (prog_of_mop l o) = true.
+Proof.
+  destruct o as [c|ts [th|]]; cbn [mop_ok prog_of_mop]; intros H.
+  - apply wf_prog_of_cop. exact H.
+  - apply wf_prog_app; [apply wf_session; exact H|apply wf_locked_call; reflexivity].
+  - apply wf_session. exact H.
+Qed.
+
+Lemma mix_from_wf l : forall acts i,
+  forallb (forallb (mop_ok cop_ok)) acts = true -> progs_wf (mix_from i l acts).
+Proof.
+  unfold progs_wf. induction acts as [|ops r IH]; intros i H; cbn [mix_from]; constructor.
+  - cbn [forallb] in H. apply andb_true_iff in H. destruct H as [H _]. cbn [fst].
+    apply wf_prog_concat. induction ops as [|o os IHo]; cbn [map]; constructor.
+    + cbn [forallb] in H. apply andb_true_iff in H. apply wf_prog_of_mop. tauto.
+    + apply IHo. cbn [forallb] in H. apply andb_true_iff in H. tauto.
+  - apply IH. cbn [forallb] in H. apply andb_true_iff in H. tauto.
+Qed.
+
+Lemma mix_from_ge l : forall acts i y, In y (mix_from i l acts) -> MIX_SESS_BASE + i <= snd y.
+Proof.
+  induction acts as [|ops r IH]; intros i y H; cbn [mix_from] in H; [destruct H|].
+  destruct H as [<-|H]; [cbn [snd]; lia|]. apply IH in H. lia.
+Qed.
+
+Lemma mix_from_distinct l : forall acts i, sess_distinct (mix_from i l acts).
+Proof.
+  induction acts as [|ops r IH]; intros i; cbn [mix_from sess_distinct]; [exact I|].
+  split; [|apply IH]. intros _. apply Forall_forall. intros y Hy _. apply mix_from_ge in Hy. lia.
+Qed.
+
+Theorem mix_actors_ok l acts :
+  forallb (forallb (mop_ok cop_ok)) acts = true ->
+  progs_wf (mix_actors l acts) /\ sess_distinct (mix_actors l acts).
+Proof. intros H. split; [apply mix_from_wf; exact H|apply mix_from_distinct]. Qed.
